@@ -28,6 +28,8 @@ func runGrandpa(k *kernel.K) {
 	// crash-restarts are a swarm knob: a voter restarted in the middle of a round may vote twice in
 	// it (see recordOwnVote), which takes the run outside the premise of C22, so most runs go without
 	s.crashes = k.Bool(1, 3, "crash-restarts-enabled")
+	// a third of the C21/C22 runs: the real finalisation.go goroutines, timers and vote tracker drive the rounds (real.go)
+	s.real = (k.Prop == "C21" || k.Prop == "C22") && k.Bool(1, 3, "real-round-driver")
 	maxByz := (s.n - 1) / 3
 	nbyz := k.Choose(maxByz+1, "byzantine")
 	if s.targeted {
@@ -84,6 +86,11 @@ func runGrandpa(k *kernel.K) {
 		}
 	}
 	wait()
+	if s.real {
+		k.Probe("real-round-driver-run")
+		s.runReal(&salt)
+		return
+	}
 	steps := k.Range(30, 260, "steps")
 	for st := 0; st < steps; st++ {
 		switch a := k.Choose(24, "action"); {
@@ -230,6 +237,9 @@ func (s *gsim) checkSafety() {
 		for j := i + 1; j < len(hs); j++ {
 			if !s.isDesc(heads[i], heads[j]) && !s.isDesc(heads[j], heads[i]) {
 				class := "conflicting-finalised-blocks"
+				if s.real && s.realOffEstimate() {
+					s.offEstimate = true
+				}
 				if s.offEstimate {
 					class += ":after-prevote-off-last-round-estimate"
 				}
@@ -504,7 +514,11 @@ func (s *gsim) deliver(w wire) {
 	}
 	switch m := msg.(type) {
 	case *gp.VoteMessage:
-		n.deliverVote(w, m)
+		if s.real {
+			n.deliverVoteReal(w, m)
+		} else {
+			n.deliverVote(w, m)
+		}
 	case *gp.CommitMessage:
 		n.deliverCommit(w, m)
 	default:
